@@ -115,9 +115,11 @@ def build(tier):
             ks = sorted(set([n // 2, n + 1])) if q else sorted(set([0, n // 2, max(n - 1, 0), n, n + 1]))
             for k in ks:
                 add("read", "op_read(s, %s, %d);" % (R(l, a, b, sh), k), "read(%d) " % k + D(l, a, b, sh))
-                add("peek", "op_peek(s, %s, %d);" % (R(l, a, b, sh), k), "peek(%d) " % k + D(l, a, b, sh))
+                if not q or i % 2 == 0:
+                    add("peek", "op_peek(s, %s, %d);" % (R(l, a, b, sh), k), "peek(%d) " % k + D(l, a, b, sh))
                 add("split_at", "op_split_at(s, %s, %d);" % (R(l, a, b, sh), k), "split_at(%d) " % k + D(l, a, b, sh))
-                add("seek", "op_seek(s, %s, %d);" % (R(l, a, b, sh), k), "seek(start+%d) " % k + D(l, a, b, sh))
+                if not q or i % 2 == 1:
+                    add("seek", "op_seek(s, %s, %d);" % (R(l, a, b, sh), k), "seek(start+%d) " % k + D(l, a, b, sh))
             pq = [(n // 3, n - n // 3), (0, n + 1)] if q else [(0, n), (n // 3, n - n // 3), (n, n), (1, 0), (0, n + 1)]
             for (p, qq) in pq:
                 add("substr", "op_substr(s, %s, %d, %d);" % (R(l, a, b, sh), p, qq), "substr(start+%d,start+%d) " % (p, qq) + D(l, a, b, sh))
@@ -125,7 +127,7 @@ def build(tier):
     for i, (l, a, b) in enumerate(RQ if q else RM):
         n = b - a
         for si, sh in enumerate(shapes_for(l, a, b, GROW)):
-            tl = [TAILS[(i + si + rot) % 4]] + ([TAILS[(i + si + rot + 1) % 4]] if sh in ("UNIQUE", "INVERTED") else []) if q else TAILS[:3]
+            tl = [TAILS[(i + si + rot) % 4]] + ([TAILS[(i + si + rot + 1) % 4]] if sh == "UNIQUE" else []) if q else TAILS[:3]
             for ti, (l2, a2, b2) in enumerate(tl):
                 sh2 = ["SHARED", "UNIQUE"][(i + si + ti) % 2]
                 if explodes(n, sh, (l2, a2, b2)):
@@ -140,7 +142,7 @@ def build(tier):
                 for k in ([] if n == 0 else [max(1, n // 2)] if q else sorted(set([1, max(1, n // 2), n + 1]))):
                     add("insert", "op_insert(s, %s, %s, %d);" % (R(l, a, b, sh), R(l2, a2, b2, sh2), k),
                         "insert(%d) " % k + D(l, a, b, sh) + " <- " + D(l2, a2, b2, sh2))
-            if (i + si) % (4 if q else 1) == 0:
+            if (i + si) % (6 if q else 1) == 0:
                 (l2, a2, b2) = TAILS[(i + 2 * si) % 4]
                 if explodes(n, sh, (l2, a2, b2)):
                     (l2, a2, b2) = TAILS[0]
